@@ -10,6 +10,7 @@ import (
 
 func main() {
 	tier := flag.String("tier", "", "quick|thorough")
+	replay := flag.String("replay", "", "replay file: report only the violation it records")
 	slotsChild := flag.String("slots-child", "", "internal: run the slot sequences of one configuration (JSON) and print results")
 	maxLen := flag.Int("maxlen", 5, "internal: sequence length for -slots-child")
 	flag.Parse()
@@ -17,6 +18,9 @@ func main() {
 		runSlotsChild(*slotsChild, *maxLen)
 	}
 	r := ev.New("C18", *tier, "model_checking")
+	if *replay != "" {
+		r.SetReplay(*replay)
+	}
 	r.SetBudget(10 * time.Minute)
 	if r.Thorough() {
 		r.SetBudget(25 * time.Minute)
